@@ -22,16 +22,20 @@ CONSTANTS Players, MinP, MaxHands, Levels, MaxRetry,
           KF_OpenAfterClose,     \* pinned: tableGameOpen had no closed/released guard
           KF_GuardOnVisibleOnly, \* pinned: "a hand is running" judged only by the published hand state
           KF_SurvivorsOnly,      \* pinned: next set-up awaited only survivors of the last hand
-          KF_RetryUnguarded      \* pinned: the retry loop of tableGameOpen re-checked only "a hand is running", not closed / released
+          KF_RetryUnguarded,     \* pinned: the retry loop of tableGameOpen re-checked only "a hand is running", not closed / released
+          KF_CloneSwap           \* the code as it is (recorded findings KF-C12-lost-update, KF-open-window-overwrite): the hand is
+                                 \* prepared on a clone of the table and swapped in later; lock-free calls in between are overwritten
 
 VARIABLES status, gc, hand, gblind, blind, released, gate, opens, cont, chips, inn, dealt,
           survivors, ext, closedBetween, opened2,  \* survivors: who kept chips in the last hand; the rest are ghosts
-          retry                                    \* > 0: tableGameOpen sleeps between attempts WITH te.lock held (attempts left)
-vars == <<status, gc, hand, gblind, blind, released, gate, opens, cont, chips, inn, dealt, survivors, ext, closedBetween, opened2, retry>>
+          retry,                                   \* > 0: tableGameOpen sleeps between attempts WITH te.lock held (attempts left)
+          win                                      \* the clone tableGameOpen is working on (KF_CloneSwap), or NoWin
+vars == <<status, gc, hand, gblind, blind, released, gate, opens, cont, chips, inn, dealt, survivors, ext, closedBetween, opened2, retry, win>>
 
 (* hand: "none" | "unpublished" (opened, first state not yet published) | "live" (published) *)
 Running == {"opened", "playing", "settled"}
 NoGate == [armed |-> FALSE, gc |-> 0, parts |-> {}, sig |-> {}]
+NoWin == [on |-> FALSE]
 AliveIn == {p \in Players : chips[p] /\ inn[p]}
 Alive == {p \in Players : chips[p]}
 IsBreak == blind = -1
@@ -40,32 +44,32 @@ IsSet == blind # 0
 Init == /\ status = "created" /\ gc = 0 /\ hand = "none" /\ gblind = 0 /\ blind \in Levels \ {-1}
         /\ released = FALSE /\ gate = NoGate /\ opens = 0 /\ cont = FALSE
         /\ chips = [p \in Players |-> TRUE] /\ inn \in (IF Quiet THEN {[p \in Players |-> TRUE]} ELSE [Players -> BOOLEAN]) /\ dealt = {}
-        /\ survivors = {} /\ ext = FALSE /\ closedBetween = FALSE /\ opened2 = FALSE /\ retry = 0
+        /\ survivors = {} /\ ext = FALSE /\ closedBetween = FALSE /\ opened2 = FALSE /\ retry = 0 /\ win = NoWin
 
 (* ---- external calls (none of them takes te.lock) ---------------------- *)
 SetUp(P) == /\ gate' = [armed |-> TRUE, gc |-> gc + 1, parts |-> P, sig |-> {}]
-            /\ UNCHANGED <<status, gc, hand, gblind, blind, released, opens, cont, chips, inn, dealt, survivors, ext, closedBetween, opened2, retry>>
+            /\ UNCHANGED <<status, gc, hand, gblind, blind, released, opens, cont, chips, inn, dealt, survivors, ext, closedBetween, opened2, retry, win>>
 Finish(p) == /\ gate.armed /\ p \in gate.parts /\ inn[p]
              /\ gate' = [gate EXCEPT !.sig = @ \cup {p}]
-             /\ UNCHANGED <<status, gc, hand, gblind, blind, released, opens, cont, chips, inn, dealt, survivors, ext, closedBetween, opened2, retry>>
+             /\ UNCHANGED <<status, gc, hand, gblind, blind, released, opens, cont, chips, inn, dealt, survivors, ext, closedBetween, opened2, retry, win>>
 UpdateBlind(l) == /\ blind' = l
-                  /\ UNCHANGED <<status, gc, hand, gblind, released, gate, opens, cont, chips, inn, dealt, survivors, ext, closedBetween, opened2, retry>>
+                  /\ UNCHANGED <<status, gc, hand, gblind, released, gate, opens, cont, chips, inn, dealt, survivors, ext, closedBetween, opened2, retry, win>>
 Pause == /\ status' = "pausing" /\ ext' = TRUE
-         /\ UNCHANGED <<gc, hand, gblind, blind, released, gate, opens, cont, chips, inn, dealt, survivors, closedBetween, opened2, retry>>
+         /\ UNCHANGED <<gc, hand, gblind, blind, released, gate, opens, cont, chips, inn, dealt, survivors, closedBetween, opened2, retry, win>>
 Close == /\ status' = "closed" /\ released' = TRUE /\ ext' = TRUE /\ closedBetween' = (closedBetween \/ hand = "none")
-         /\ UNCHANGED <<gc, hand, gblind, blind, gate, opens, cont, chips, inn, dealt, survivors, opened2, retry>>
+         /\ UNCHANGED <<gc, hand, gblind, blind, gate, opens, cont, chips, inn, dealt, survivors, opened2, retry, win>>
 Release == /\ released' = TRUE /\ ext' = TRUE /\ closedBetween' = (closedBetween \/ hand = "none")
-           /\ UNCHANGED <<status, gc, hand, gblind, blind, gate, opens, cont, chips, inn, dealt, survivors, opened2, retry>>
+           /\ UNCHANGED <<status, gc, hand, gblind, blind, gate, opens, cont, chips, inn, dealt, survivors, opened2, retry, win>>
 Rebuy(p) == /\ ~chips[p] /\ chips' = [chips EXCEPT ![p] = TRUE]
-            /\ UNCHANGED <<status, gc, hand, gblind, blind, released, gate, opens, cont, inn, dealt, survivors, ext, closedBetween, opened2, retry>>
+            /\ UNCHANGED <<status, gc, hand, gblind, blind, released, gate, opens, cont, inn, dealt, survivors, ext, closedBetween, opened2, retry, win>>
 SitIn(p) == /\ ~inn[p] /\ inn' = [inn EXCEPT ![p] = TRUE]
-            /\ UNCHANGED <<status, gc, hand, gblind, blind, released, gate, opens, cont, chips, dealt, survivors, ext, closedBetween, opened2, retry>>
+            /\ UNCHANGED <<status, gc, hand, gblind, blind, released, gate, opens, cont, chips, dealt, survivors, ext, closedBetween, opened2, retry, win>>
 
 (* ---- the gate (abstract: all signalled, or its 2 s timeout) ------------ *)
 GateFire == /\ gate.armed /\ opens < 2      \* (bound of the model: at most two callbacks in flight)
             /\ gate' = [gate EXCEPT !.armed = FALSE]
             /\ opens' = IF Cardinality(gate.parts) > 1 THEN opens + 1 ELSE opens
-            /\ UNCHANGED <<status, gc, hand, gblind, blind, released, cont, chips, inn, dealt, survivors, ext, closedBetween, opened2, retry>>
+            /\ UNCHANGED <<status, gc, hand, gblind, blind, released, cont, chips, inn, dealt, survivors, ext, closedBetween, opened2, retry, win>>
 
 (* ---- tableGameOpen: one critical section under te.lock ------------------ *)
 OpenGuardsPass ==
@@ -77,33 +81,44 @@ Retryable == ~IsSet \/ (~IsBreak /\ Cardinality(AliveIn) < 2)
 OpenSucceeds == IsSet /\ ~IsBreak /\ Cardinality(AliveIn) >= 2 /\ gc < MaxHands   \* (gc < MaxHands: bound of the model)
 DoOpen == /\ status' = "playing" /\ gc' = gc + 1 /\ hand' = "unpublished" /\ gblind' = blind /\ dealt' = AliveIn
           /\ opened2' = (opened2 \/ hand # "none")
-          /\ UNCHANGED <<blind, released, gate, cont, chips, inn, survivors, ext, closedBetween>>
+          /\ UNCHANGED <<blind, released, gate, cont, chips, inn, survivors, ext, closedBetween, win>>
 NoOpen == UNCHANGED <<status, gc, hand, gblind, blind, released, gate, cont, chips, inn, dealt, survivors, ext, closedBetween, opened2>>
+(* the open succeeds: at once (the design), or on a clone that is swapped in by a later step (the code) *)
+OpenOrClone == IF KF_CloneSwap
+               THEN NoOpen /\ win' = [on |-> TRUE, blind |-> blind, chips |-> chips, inn |-> inn, alive |-> AliveIn]
+               ELSE DoOpen
 TableGameOpen ==
-  /\ retry = 0 /\ opens > 0 /\ opens' = opens - 1
-  /\ IF OpenGuardsPass /\ OpenSucceeds THEN DoOpen /\ retry' = 0
-     ELSE IF OpenGuardsPass /\ Retryable THEN NoOpen /\ retry' = MaxRetry      \* sleeps 3 s, lock held
-     ELSE NoOpen /\ retry' = 0
+  /\ retry = 0 /\ ~win.on /\ opens > 0 /\ opens' = opens - 1
+  /\ IF OpenGuardsPass /\ OpenSucceeds THEN OpenOrClone /\ retry' = 0
+     ELSE IF OpenGuardsPass /\ Retryable THEN NoOpen /\ retry' = MaxRetry /\ UNCHANGED win     \* sleeps 3 s, lock held
+     ELSE NoOpen /\ retry' = 0 /\ UNCHANGED win
 (* one turn of the retry loop, after its sleep.  te.lock is held all the while, which keeps out other gate callbacks,
    PlayerReserve / PlayersLeave / UpdateTablePlayers and the players' game actions -- but UpdateBlind, Pause, Close,
    Release, SetUp, the settlement signals, PlayerJoin and PlayerRedeemChips take no lock and may have landed *)
 OpenRetry ==
-  /\ retry > 0 /\ UNCHANGED opens
-  /\ IF status \in Running THEN NoOpen /\ retry' = 0
-     ELSE IF ~KF_RetryUnguarded /\ (released \/ status = "closed") THEN NoOpen /\ retry' = 0
-     ELSE IF OpenSucceeds THEN DoOpen /\ retry' = 0
-     ELSE IF Retryable THEN NoOpen /\ retry' = retry - 1
-     ELSE NoOpen /\ retry' = 0
+  /\ retry > 0 /\ ~win.on /\ UNCHANGED opens
+  /\ IF status \in Running THEN NoOpen /\ retry' = 0 /\ UNCHANGED win
+     ELSE IF ~KF_RetryUnguarded /\ (released \/ status = "closed") THEN NoOpen /\ retry' = 0 /\ UNCHANGED win
+     ELSE IF OpenSucceeds THEN OpenOrClone /\ retry' = 0
+     ELSE IF Retryable THEN NoOpen /\ retry' = retry - 1 /\ UNCHANGED win
+     ELSE NoOpen /\ retry' = 0 /\ UNCHANGED win
+(* te.table = clone: whatever the lock-free calls wrote to the table since the clone was taken is gone (status, blind
+   level, chips, sit-ins); the released flag lives in the engine, not in the table, and survives *)
+OpenSwap ==
+  /\ win.on /\ win' = NoWin
+  /\ status' = "playing" /\ gc' = gc + 1 /\ hand' = "unpublished" /\ gblind' = win.blind /\ blind' = win.blind
+  /\ chips' = win.chips /\ inn' = win.inn /\ dealt' = win.alive /\ opened2' = (opened2 \/ hand # "none")
+  /\ UNCHANGED <<released, gate, opens, cont, survivors, ext, closedBetween, retry>>
 
 (* ---- updater goroutine --------------------------------------------------- *)
 Publish == /\ hand = "unpublished" /\ hand' = "live"
-           /\ UNCHANGED <<status, gc, gblind, blind, released, gate, opens, cont, chips, inn, dealt, survivors, ext, closedBetween, opened2, retry>>
+           /\ UNCHANGED <<status, gc, gblind, blind, released, gate, opens, cont, chips, inn, dealt, survivors, ext, closedBetween, opened2, retry, win>>
 (* settleGame + continueGame's reset run back to back in the updater *)
 SettleAndReset(keep) ==
   /\ hand = "live" /\ keep # {} /\ keep \subseteq dealt
   /\ chips' = [p \in Players |-> IF p \in dealt THEN p \in keep ELSE chips[p]]
   /\ status' = "standby" /\ hand' = "none" /\ cont' = TRUE /\ dealt' = {} /\ survivors' = keep
-  /\ UNCHANGED <<gc, gblind, blind, released, gate, opens, inn, ext, closedBetween, opened2, retry>>
+  /\ UNCHANGED <<gc, gblind, blind, released, gate, opens, inn, ext, closedBetween, opened2, retry, win>>
 ContinueFire ==
   /\ cont /\ cont' = FALSE
   /\ IF status = "closed" \/ released THEN UNCHANGED <<status, gate>>
@@ -113,16 +128,16 @@ ContinueFire ==
                            parts |-> IF KF_SurvivorsOnly THEN survivors ELSE AliveIn]
                /\ UNCHANGED status
           ELSE UNCHANGED <<status, gate>>
-  /\ UNCHANGED <<gc, hand, gblind, blind, released, opens, chips, inn, dealt, survivors, ext, closedBetween, opened2, retry>>
+  /\ UNCHANGED <<gc, hand, gblind, blind, released, opens, chips, inn, dealt, survivors, ext, closedBetween, opened2, retry, win>>
 
 Next ==
   \/ gc < MaxHands /\ (ExtSetUp \/ (gc = 0 /\ status = "created" /\ ~gate.armed /\ opens = 0)) /\ \E P \in SUBSET Players : SetUp(P)
   \/ \E p \in Players : (~Quiet /\ Finish(p)) \/ Rebuy(p) \/ (~Quiet /\ SitIn(p))
   \/ ~Quiet /\ \E l \in Levels : UpdateBlind(l)
   \/ ~Quiet /\ (Pause \/ Close \/ Release)
-  \/ GateFire \/ TableGameOpen \/ OpenRetry \/ Publish \/ ContinueFire
+  \/ GateFire \/ TableGameOpen \/ OpenRetry \/ OpenSwap \/ Publish \/ ContinueFire
   \/ \E keep \in SUBSET Players : SettleAndReset(keep)
-Internal == GateFire \/ TableGameOpen \/ OpenRetry \/ Publish \/ ContinueFire \/ \E keep \in SUBSET Players : SettleAndReset(keep)
+Internal == GateFire \/ TableGameOpen \/ OpenRetry \/ OpenSwap \/ Publish \/ ContinueFire \/ \E keep \in SUBSET Players : SettleAndReset(keep)
 Spec == Init /\ [][Next]_vars /\ WF_vars(Internal)
 
 (* ---- property layer (C07, C08, C12 as stated for the model) ------------- *)
@@ -132,6 +147,9 @@ C07_GcStep == [][(gc' # gc) => (gc' = gc + 1 /\ hand' = "unpublished")]_vars
 C07_NoOpenOnBreak == [][(gc' # gc) => (blind # -1 /\ blind # 0)]_vars
 C12_GameBlindFixed == [][(hand # "none" /\ hand' # "none" /\ gc' = gc) => gblind' = gblind]_vars
 C12_GameBlindAtOpen == [][(gc' # gc) => gblind' = blind]_vars
+(* C01 (as far as this model sees chips): a stack is only ever emptied by the settlement of a hand; C03/C05: a sit-in is never undone *)
+C01_ChipsOnlyLostAtSettle == [][\A p \in Players : (chips[p] /\ ~chips'[p]) => hand = "live"]_vars
+C03_SitInSticks == [][\A p \in Players : inn[p] => inn'[p]]_vars
 C08_PauseIff == [][(cont /\ ~cont' /\ ~ext /\ status = "standby") =>
                      ((status' = "pausing") <=> (blind = -1 \/ Cardinality(Alive) < MinP))]_vars
 C08_SetUpEnough == [][(cont /\ ~cont' /\ ~ext /\ status = "standby" /\ status' = "standby" /\ Cardinality(AliveIn) >= 2)
@@ -143,5 +161,5 @@ C08_Opens == [](( ~ext /\ gate.armed /\ status = "standby" /\ Cardinality(gate.p
                 ~> (status # "standby" \/ ext \/ blind \in {-1, 0} \/ Cardinality(AliveIn) < 2))
 LevelsDef == {-1, 0, 1, 2}
 LevelsSmall == {-1, 1}
-View == <<status, gc, hand, gblind, blind, released, gate, opens, cont, chips, inn, dealt, survivors, ext, closedBetween, opened2, retry>>
+View == <<status, gc, hand, gblind, blind, released, gate, opens, cont, chips, inn, dealt, survivors, ext, closedBetween, opened2, retry, win>>
 =============================================================================
